@@ -73,6 +73,8 @@ fn op_spec_strategy() -> impl Strategy<Value = OpSpec> {
         2 => Just(SizeSpec::ExactFit),
         2 => (1usize..=5, -2i32..=2).prop_map(|(k, d)| SizeSpec::Span(k, d)),
         1 => (0usize..1500).prop_map(SizeSpec::Any),
+        // large messages: a queue of tens of kilobytes must still go out in one write
+        1 => (3000usize..40000).prop_map(SizeSpec::Any),
     ];
     (
         prop_oneof![80 => Just(0u8), 13 => Just(1u8), 7 => 2u8..5],
@@ -230,7 +232,8 @@ pub fn case_from_bytes(u: &mut arbitrary::Unstructured<'_>) -> arbitrary::Result
             16..=17 => 1,
             k => k - 16, // 2, 3
         };
-        let size = match u.int_in_range(0u8..=11)? {
+        let size = match u.int_in_range(0u8..=12)? {
+            12 => SizeSpec::Any(u.int_in_range(3000usize..=39999)?),
             0..=2 => SizeSpec::Small(u.int_in_range(0usize..=39)?),
             3..=6 => SizeSpec::LeaveFree(u.int_in_range(0usize..=600)?),
             7..=8 => SizeSpec::ExactFit,
